@@ -16,7 +16,9 @@
 (* object gave.  Stream bodies of the files are free of line-initial object *)
 (* headers and of EOL+"endstream" (a prefix ending inside such a body is a  *)
 (* well-formed shorter object for every reader that tolerates a wrong       *)
-(* /Length).                                                                *)
+(* /Length); where /Length may be an indirect object no body ends in a bare *)
+(* CR (CR + the Writer's LF reads as a CR LF marker once the length is      *)
+(* lost).                                                                   *)
 EXTENDS SeqScanRef, TraceLib
 
 Cases == Records
